@@ -19,7 +19,7 @@ Lemma tx_safeb_spec sk : tx_safeb sk = true ->
   k_wp sk = [TMarshal; TRegister; TWrite; TUnregFail] /\ k_reg sk = [ALock; AStore; AUnlock] /\
   k_unreg sk = [ALock; ADelete; AUnlock] /\ k_look sk = [ALock; ALoad; ADelete; AUnlock].
 Proof.
-  unfold tx_safeb. intros H.
+  unfold tx_safeb. intros H. apply andb_true_iff in H. destruct H as (_ & H).
   destruct (k_wm sk) as [|[] [|[] [|[] [|[] [|]]]]]; try discriminate.
   destruct (k_wp sk) as [|[] [|[] [|[] [|[] [|]]]]]; try discriminate.
   destruct (k_reg sk) as [|[] [|[] [|[] [|]]]]; try discriminate.
